@@ -37,6 +37,12 @@ Location = tuple[Union[str, int, "Location"], ...]
 RE_PROPERTY = re.compile(r"[\u0080-\uFFFFa-zA-Z_][\u0080-\uFFFFa-zA-Z0-9_-]*")
 
 
+def _quote(segment: str) -> str:
+    """Return _segment_ as a quoted path segment. There are no escape sequences."""
+    quote = '"' if "'" in segment else "'"
+    return f"{quote}{segment}{quote}"
+
+
 class Path(Expression):
     __slots__ = ("path",)
 
@@ -49,7 +55,15 @@ class Path(Expression):
 
     def __str__(self) -> str:
         it = iter(self.path)
-        buf = [str(next(it))]
+        root = next(it)
+
+        if isinstance(root, Path):
+            buf = [f"[{root}]"]
+        elif isinstance(root, str) and not RE_PROPERTY.fullmatch(root):
+            buf = [f"[{_quote(root)}]"]
+        else:
+            buf = [str(root)]
+
         for segment in it:
             if isinstance(segment, Path):
                 buf.append(f"[{segment}]")
@@ -57,7 +71,7 @@ class Path(Expression):
                 if RE_PROPERTY.fullmatch(segment):
                     buf.append(f".{segment}")
                 else:
-                    buf.append(f"[{segment!r}]")
+                    buf.append(f"[{_quote(segment)}]")
             else:
                 buf.append(f"[{segment}]")
         return "".join(buf)
